@@ -19,7 +19,7 @@ from common import Model, hx, exc_name, Infra
 
 logging.disable(logging.CRITICAL)
 
-LEAN_TARGETS = ["NfcVerif.Props.C04", "drv_c04"]
+LEAN_TARGETS = ["NfcVerif.Props.C04", "drv_c04", "NfcVerif.Props.TablesDep"]
 
 THEOREMS = [
     "NfcVerif.C04.dep_exactly_once",
@@ -554,6 +554,7 @@ def codec_cases(ck, rng):
 
 # ------------------------------------------------------------------ main
 def run(ck):
+    ck.tables("TablesDep")   # T-tie for constants: source tables re-extracted, bridge theorems re-proved
     from sims import dep_air
     rng = ck.rng
     ck.rule = ("case = (bit rate framing, DID, NAD, LRi, LRt, MIU override, fault script, release mode, payload lists "
